@@ -37,7 +37,7 @@ class Worker:
         }
         self.proc = subprocess.Popen(
             [exe, "-P", "-c", _BOOT, "--repo", repo, "--id", str(wid)],
-            stdin=subprocess.PIPE, stdout=subprocess.PIPE, stderr=self.log, env=env, cwd="/",
+            stdin=subprocess.PIPE, stdout=subprocess.PIPE, stderr=self.log, env=env, cwd=os.path.join(logdir, "cwd"),
             text=True, encoding="utf-8", bufsize=1,
         )
         self.lock = threading.Lock()
@@ -115,6 +115,7 @@ class Fleet:
     def __init__(self, repo: str, specs: list, replicas: int = 1, jobs: int = 16):
         self.repo = os.path.realpath(repo)
         self.logdir = tempfile.mkdtemp(prefix="verif-fleet-")
+        os.mkdir(os.path.join(self.logdir, "cwd"))  # empty real cwd of every template and child
         self.jobs = max(1, jobs)
         self.groups: list[list[Worker]] = []
         self.specs = specs
@@ -184,6 +185,14 @@ class Fleet:
                 raise e
             raise HarnessError("coordinator thread failed: %r" % (e,))
         return results
+
+    def stray_files(self) -> list:
+        """Real files created in the (empty) real working directory of the templates: a simulated
+        process reached the disk through a path the model does not cover."""
+        try:
+            return sorted(os.listdir(os.path.join(self.logdir, "cwd")))
+        except OSError:
+            return []
 
     def close(self):
         for w in self.workers():
